@@ -8,6 +8,7 @@ import (
 	"errors"
 	"fmt"
 	"io"
+	"os"
 	"net"
 	"strconv"
 	"time"
@@ -597,6 +598,28 @@ type TCPConn struct {
 	Dialled     bool
 	driver      bool
 	sync        uint64
+	rdl         int64 // read deadline in virtual ns since the epoch (0 = none)
+}
+
+// epoch is vtime's virtual epoch (vtime cannot be imported here): deadlines are absolute times
+var epoch = time.Date(2030, 1, 1, 0, 0, 0, 0, time.UTC)
+
+//go:norace
+func (c *TCPConn) setReadDeadline(t time.Time) {
+	if t.IsZero() {
+		c.rdl = 0
+		return
+	}
+	c.rdl = int64(t.Sub(epoch))
+	if c.rdl == 0 {
+		c.rdl = 1
+	}
+}
+
+//go:norace
+func (c *TCPConn) deadlinePassed() bool {
+	w := vrt.W
+	return c.rdl != 0 && w != nil && w.NowNS >= c.rdl
 }
 
 type TCPListener struct {
@@ -612,7 +635,7 @@ type tcpReadWait struct{ c *TCPConn }
 
 //go:norace
 func (w tcpReadWait) Ready() bool {
-	return len(w.c.rq) > 0 || w.c.rclosed || w.c.closed || w.c.reset
+	return len(w.c.rq) > 0 || w.c.rclosed || w.c.closed || w.c.reset || w.c.deadlinePassed()
 }
 
 //go:norace
@@ -623,6 +646,10 @@ func (c *TCPConn) Read(p []byte) (int, error) {
 	}
 	if c.reset {
 		return 0, errors.New("read: connection reset by peer")
+	}
+	if c.deadlinePassed() {
+		// as in the Go runtime: a deadline that has passed fails the read before any data is looked at
+		return 0, os.ErrDeadlineExceeded
 	}
 	if len(c.rq) == 0 {
 		return 0, io.EOF
@@ -726,8 +753,8 @@ func (c *TCPConn) LocalAddr() net.Addr { return cloneTCPAddr(c.laddr) }
 //go:norace
 func (c *TCPConn) RemoteAddr() net.Addr { return cloneTCPAddr(c.raddr) }
 
-func (c *TCPConn) SetDeadline(t time.Time) error            { return nil }
-func (c *TCPConn) SetReadDeadline(t time.Time) error        { return nil }
+func (c *TCPConn) SetDeadline(t time.Time) error            { c.setReadDeadline(t); return nil }
+func (c *TCPConn) SetReadDeadline(t time.Time) error        { c.setReadDeadline(t); return nil }
 func (c *TCPConn) SetWriteDeadline(t time.Time) error       { return nil }
 func (c *TCPConn) SetKeepAlive(b bool) error                { return nil }
 func (c *TCPConn) SetKeepAlivePeriod(d time.Duration) error { return nil }
